@@ -544,6 +544,12 @@ func scenC12App(run *vlab.Run, sx, tmp string) {
 							c.Write([]byte("HTTP/1.1 200 OK\r\nContent-Type: application/json\r\nContent-Length: 400\r\n\r\n{\"name\":"))
 						}
 					}
+					for w := 0; w < 400 && cr == nil; w++ { // the connection can be here before RunCase handed out the process
+						time.Sleep(5 * time.Millisecond)
+						mu.Lock()
+						cr = cr0
+						mu.Unlock()
+					}
 					mu.Lock()
 					fire := !fired && held >= sigAfter && cr != nil
 					if fire {
@@ -583,7 +589,7 @@ func scenC12App(run *vlab.Run, sx, tmp string) {
 		f := fired
 		mu.Unlock()
 		if !f {
-			run.Inconclusive("SIGINT was never sent: too few connections reached the monitor's server")
+			run.Inconclusive(fmt.Sprintf("SIGINT was never sent: too few connections reached the monitor's server: %v exit=%d stderr=%.300q", desc, res.ExitCode, res.Stderr))
 			continue
 		}
 		if res.TimedOut {
